@@ -240,9 +240,24 @@ func runHistory(r *mon.Run, work string, idx int, rng *mrand.Rand, keys []echgen
 		}
 		m := &model{readInterp: true, writeInterp: true}
 		var trace []string
+		// every third history hands consecutive backend records to ONE Write call: what the Conn makes of the
+		// backend's records must not depend on how its output is split across Write calls
+		coalesce := rng.IntN(3) == 0
+		var pending []byte
 		for si, k := range hist {
 			rec, inner := fx.build(rng, k)
 			if strings.HasPrefix(k, "b:") {
+				if coalesce && si+1 < len(hist) && strings.HasPrefix(hist[si+1], "b:") {
+					pending = append(pending, rec...)
+					m.backend(k)
+					trace = append(trace, k+"=>held-for-one-write")
+					continue
+				}
+				if len(pending) > 0 {
+					rec = append(pending, rec...)
+					pending = nil
+					r.Count("backend_records_coalesced_into_one_write", 1)
+				}
 				delivered, n, err := flow.Backend(rec)
 				m.backend(k)
 				if err != nil || n != len(rec) || !bytes.Equal(delivered, rec) {
